@@ -24,6 +24,10 @@ class RuleInfo:
                 self.spec[rn] = lang.parse(data[1])
             except Exception:
                 self.spec[rn] = None
+        # an element may be mapped to a rule name the table does not have (C10 is about exactly that): the harnesses of the other
+        # properties must not trip over it - nothing is known about such a rule (no spec), and validating the element is up to the code
+        for rn in self.mappings.values():
+            self.spec.setdefault(rn, None)
         self.elems = {}
         for e, rn in self.mappings.items():
             self.elems.setdefault(rn, []).append(e)
@@ -40,6 +44,8 @@ class RuleInfo:
         return es[0] if es else None
 
     def valid_content(self, rn, rng=None, nkids=0):
+        if rn not in self.rules:          # an element mapped to a rule the table does not have: nothing is known about it
+            return None
         content = self.rules[rn][2]
         crs = content.get("content_rules", [])
         if "content_enum" in content and content["content_enum"]:
@@ -56,13 +62,15 @@ class RuleInfo:
 
     def valid_attrs(self, rn, rng=None):
         out = []
+        if rn not in self.rules:
+            return out
         for a, spec in self.rules[rn][0].items():
             if spec[0] or (rng is not None and rng.random() < 0.3):
                 out.append([a, (rng.choice(spec[1:]) if rng else spec[1]) if len(spec) > 1 else "v"])
         return out
 
     def valid_kids(self, rn):
-        s = self.spec[rn]
+        s = self.spec.get(rn)
         w = lang.min_word(s) if s is not None else []
         return w or []
 
